@@ -239,16 +239,28 @@ type C20Case struct {
 
 func genWLayer(t *rapid.T, n int) WLayer {
 	l := WLayer{}
+	// one value in four is the explicit ZERO value of its type: a source that
+	// sets a leaf to zero must still override the (non-zero) lower layer
+	zero := func(label string) bool { return rapid.IntRange(0, 3).Draw(t, label+"_zero") == 0 }
 	if rapid.Bool().Draw(t, "num") {
 		v := 100 + n
+		if zero("num") {
+			v = 0
+		}
 		l.Num = &v
 	}
 	if rapid.Bool().Draw(t, "name") {
 		s := fmt.Sprintf("name%d", n)
+		if zero("name") {
+			s = ""
+		}
 		l.Name = &s
 	}
 	if rapid.Bool().Draw(t, "dur") {
 		d := int64(time.Duration(n+1) * 90 * time.Second)
+		if zero("dur") {
+			d = 0
+		}
 		l.DurNS = &d
 	}
 	if rapid.Bool().Draw(t, "set") {
@@ -264,6 +276,9 @@ func genWLayer(t *rapid.T, n int) WLayer {
 	}
 	if rapid.Bool().Draw(t, "subdepth") {
 		v := 10 + n
+		if zero("subdepth") {
+			v = 0
+		}
 		l.SubDepth = &v
 	}
 	if rapid.Bool().Draw(t, "subtag") {
@@ -679,7 +694,10 @@ func runC20Blank(c C20BlankCase) (verdict vrt.Verdict) {
 					}
 					continue
 				}
-				err := blank.SetSource(ctx, s)
+				// SetSource gets a context of its own that ends right after the call
+				sctx, scancel := context.WithCancel(ctx)
+				err := blank.SetSource(sctx, s)
+				scancel()
 				synctest.Wait()
 				switch {
 				case op.Kind == "nil":
@@ -746,6 +764,11 @@ func runC20Blank(c C20BlankCase) (verdict vrt.Verdict) {
 			case "inner-report":
 				if innerWatcher == nil || innerWatcher.Args == nil || !monAlive {
 					continue
+				}
+				if innerWatcher.Ctx == nil || innerWatcher.Ctx.Err() != nil {
+					// a watcher that honours its Watch context has stopped by now: its updates are lost
+					fail("%s: the inner watcher was started with a context that is already over (it must get the context Dials gave the Blank's Watch, not the SetSource call's): later updates from it would never arrive", step)
+					return
 				}
 				if err := innerWatcher.Args.BlockingReportNewValue(ctx, wNative(innerWatcher.Type.Type(), op.L)); err != nil {
 					fail("%s: report from the inner watcher failed: %v", step, err)
